@@ -463,6 +463,7 @@ def run(rep, tier_, rng):
     regimes = {}
     for c in calls.values():
         regimes[c["regime"]] = regimes.get(c["regime"], 0) + 1
+    insts, not_attempted = calcb.fit_budget(insts, max(30, (115 if q else 1100) - tgen))
     run_and_report(rep, insts, calls, tag="C27_%s" % tier_, params={"sentence_timeout": 60, "single_timeout": 80},
                    budget=max(30, (115 if q else 1100) - tgen), jobs=10,
                    rule="each evaluation = one call of nsum/nprod/limit/sumem/sumap of the current /repo code: finite ranges (rational "
@@ -472,7 +473,7 @@ def run(rep, tier_, rng):
                         "products of 1-d closed forms; each with a method that its docstring names as suitable, at p in {30,53,100(,200,300)}; "
                         "distinct = distinct lemma statements; non-trivial = error not exactly zero against a folded rational",
                    assumptions=ASSUMPTIONS,
-                   extra_cov={"regimes": regimes, "generation_wall_s": round(tgen, 1), "tolerance": "2^(10-p) relative", **stats})
+                   extra_cov={"lemmas_not_attempted_for_time": not_attempted, "regimes": regimes, "generation_wall_s": round(tgen, 1), "tolerance": "2^(10-p) relative", **stats})
 
 
 def replay(rep, path):
